@@ -60,6 +60,28 @@ class Sent:
         return f"Sent({self.tag})"
 
 
+class EqAll:
+    """A return value that compares equal to everything (a matcher object such as mock.ANY): results
+    must be told apart by identity / position, never by ==."""
+
+    __slots__ = ("tag",)
+
+    def __init__(self, tag):
+        self.tag = tag
+
+    def __eq__(self, other):
+        return True
+
+    def __ne__(self, other):
+        return False
+
+    def __hash__(self):
+        return 1
+
+    def __repr__(self):
+        return f"EqAll({self.tag})"
+
+
 TRUTHY = [True, 1, "x", [0], 2.5, (0,)]
 FALSY = [False, 0, "", None, [], 0.0]
 
@@ -68,6 +90,8 @@ def ret_value(code, cb_id):
     """Scripted return values by code."""
     if code == "sent":
         return Sent(cb_id)
+    if code == "eqall":
+        return EqAll(cb_id)
     return {
         "none": None, "zero": 0, "false": False, "empty": "", "elist": [], "list": [cb_id, 1],
         "tuple": (cb_id,), "dict": {"k": cb_id}, "str": "r-" + cb_id, "etuple": (), "one": 1,
@@ -75,7 +99,7 @@ def ret_value(code, cb_id):
 
 
 RET_CODES = ["sent", "sent", "sent", "none", "zero", "false", "empty", "elist", "list", "tuple",
-             "dict", "str", "etuple", "one"]
+             "dict", "str", "etuple", "one", "eqall"]
 
 
 def frame_depth():
@@ -358,6 +382,8 @@ def res_repr(res):
     """JSON-able structural description of a send result (identity of sentinels kept by tag)."""
     if isinstance(res, Sent):
         return {"sent": res.tag}
+    if isinstance(res, EqAll):
+        return {"eqall": res.tag}
     if isinstance(res, list):
         return {"list": [res_repr(x) for x in res]}
     if isinstance(res, tuple):
